@@ -168,15 +168,16 @@ fn gen_spec(rng: &mut Rng, screen: &mut Screen) -> RunSpec {
     k.min_eligible = rng.range(1, 3);
     k.max_files_per_dir = k.max_files_per_dir.max(2);
     k.blank_files = rng.chance(1, 10);
-    gen::gen_tree(rng, screen, &mut world, "/w/c", &k);
+    let root = gen::gen_root(rng);
+    gen::gen_tree(rng, screen, &mut world, root, &k);
     // the inert file may even carry the report's own name, in the analysed directory itself
     if rng.chance(1, 4) {
         let fill = *rng.pick(&INERT_FILLS);
         let (bytes, fault) = inert_content(fill, rng);
-        world.put_file("/w/c/solstat_report.md", bytes, fault);
+        world.put_file(&format!("{}/solstat_report.md", root), bytes, fault);
     }
     let place = *rng.pick(&[gen::CwdPlace::Parent, gen::CwdPlace::Parent, gen::CwdPlace::Equal, gen::CwdPlace::Child, gen::CwdPlace::Unrelated]);
-    let dir = gen::place_cwd(rng, &mut world, "/w/c", place);
+    let dir = gen::place_cwd(rng, &mut world, root, place);
     let (schedule, _, _) = gen::gen_schedule(rng, &world);
     let (mut vul, mut opt, mut qa) = (gen::gen_pats(rng, Cat::Vul), gen::gen_pats(rng, Cat::Opt), gen::gen_pats(rng, Cat::Qa));
     for l in [&mut vul, &mut opt, &mut qa] {
